@@ -215,10 +215,19 @@ def _jet(spec, z0, K):
     raise ValueError(t)
 
 
-def exact_coefs(spec, z0, K):
-    """c_0 .. c_{K-1} of the spec at z0 (list of mpmath numbers)."""
+DPS_DEFAULT = 200
+
+
+def exact_coefs(spec, z0, K, dps=DPS_DEFAULT):
+    """c_0 .. c_{K-1} of the spec at z0 (list of mpmath numbers), computed with ``dps`` digits.
+
+    The Cauchy products cancel: the k-th coefficient of exp(a z) exp(b z) is a sum of terms of size
+    (|a| + |b|)^k / k! adding up to (a + b)^k / k!, which loses k*log10((|a|+|b|)/|a+b|) digits
+    (56 digits for exp(-0.5233 z) exp(0.5623 z) at k = 39: at 60 digits the "exact" value was 4e-6
+    off).  Hence 200 digits by default, and callers re-run at 600 digits before reporting."""
     K = max(int(K), 2)
-    return [mp.mpc(c) for c in _jet(spec, z0, K).c]
+    with mp.workdps(int(dps)):
+        return [mp.mpc(c) for c in _jet(spec, z0, K).c]
 
 
 def mp_eval(spec, z):
